@@ -37,6 +37,7 @@ type Env struct {
 	pkg       *types.Package
 	results   []SVal
 	noUnfold  bool
+	forceUnfold bool
 	inOld     bool
 	fnOverride *ssa.Function
 }
@@ -734,7 +735,7 @@ func (e *Env) evalIndex(n *EIndex) SVal {
 	switch t := x.typ.Underlying().(type) {
 	case *types.Slice:
 		i := e.evalInt(n.I)
-		term := fmt.Sprintf("(select %s (+ (s-off %s) %s))", e.contents(x), x.t, i)
+		term := fmt.Sprintf("(select %s %s)", e.contents(x), addOff("(s-off "+x.t+")", i))
 		e.rangeSide(term, t.Elem())
 		return SVal{t: term, typ: t.Elem(), sort: vc.d.sortOf(t.Elem()), st: x.st}
 	case *types.Array:
@@ -829,13 +830,113 @@ func (e *Env) evalQuant(q string, n *ECall) SVal {
 	lo, hi := e.evalInt(n.Args[1]), e.evalInt(n.Args[2])
 	vc.nfresh++
 	bn := fmt.Sprintf("%s!q%d", id.Name, vc.nfresh)
+	// If the bound variable indexes a slice, quantify over the absolute index k = off+i so
+	// that the element term is (select arr k): a pattern without arithmetic.
+	iv := bn
+	if off := e.findSliceOffset(id.Name, n.Args[3]); off != "" {
+		iv = fmt.Sprintf("(- %s %s)", bn, off)
+	}
 	e.bound = append(e.bound, fmt.Sprintf("(%s Int)", bn))
-	body := e.withVars(map[string]SVal{id.Name: mathInt(bn)}, func() SVal { return e.eval(n.Args[3]) })
+	body := e.withVars(map[string]SVal{id.Name: mathInt(iv)}, func() SVal { return e.eval(n.Args[3]) })
 	e.bound = e.bound[:len(e.bound)-1]
 	if q == "forall" {
-		return mathBool(fmt.Sprintf("(forall ((%s Int)) (=> (and (<= %s %s) (< %s %s)) %s))", bn, lo, bn, bn, hi, body.t))
+		return mathBool(fmt.Sprintf("(forall ((%s Int)) (=> (and (<= %s %s) (< %s %s)) %s))", bn, lo, iv, iv, hi, body.t))
 	}
-	return mathBool(fmt.Sprintf("(exists ((%s Int)) (and (<= %s %s) (< %s %s) %s))", bn, lo, bn, bn, hi, body.t))
+	return mathBool(fmt.Sprintf("(exists ((%s Int)) (and (<= %s %s) (< %s %s) %s))", bn, lo, iv, iv, hi, body.t))
+}
+
+// findSliceOffset looks for s[i] (or s[i±c]) in body where s is a slice expression not
+// mentioning i, and returns the offset term of s ("" if none).
+func (e *Env) findSliceOffset(name string, body Expr) (off string) {
+	var base Expr
+	walkExpr(body, func(x Expr) {
+		if base != nil {
+			return
+		}
+		ix, ok := x.(*EIndex)
+		if !ok {
+			return
+		}
+		mentions := false
+		walkExpr(ix.I, func(y Expr) {
+			if id, ok := y.(*EIdent); ok && id.Name == name {
+				mentions = true
+			}
+		})
+		if !mentions {
+			return
+		}
+		baseMentions := false
+		walkExpr(ix.X, func(y Expr) {
+			if id, ok := y.(*EIdent); ok {
+				if id.Name == name {
+					baseMentions = true
+				}
+				// other bound variables of enclosing quantifiers are fine only if they are in vars as plain symbols
+			}
+		})
+		if !baseMentions {
+			base = ix.X
+		}
+	})
+	if base == nil {
+		return ""
+	}
+	defer func() {
+		if r := recover(); r != nil {
+			off = ""
+		}
+	}()
+	v := e.eval(base)
+	if v.typ == nil {
+		return ""
+	}
+	if _, ok := v.typ.Underlying().(*types.Slice); !ok {
+		return ""
+	}
+	return "(s-off " + v.t + ")"
+}
+
+// addOff builds off+i, cancelling the (- k off) form introduced by evalQuant.
+func addOff(off, i string) string {
+	suffix := " " + off + ")"
+	if strings.HasPrefix(i, "(- ") && strings.HasSuffix(i, suffix) {
+		k := strings.TrimSuffix(strings.TrimPrefix(i, "(- "), suffix)
+		if balanced(k) {
+			return k
+		}
+	}
+	for _, op := range []string{"+", "-"} {
+		pre := "(" + op + " (- "
+		if strings.HasPrefix(i, pre) {
+			rest := i[len(pre):]
+			// rest = "K OFF) C)"
+			if j := strings.Index(rest, suffix+" "); j >= 0 {
+				k := rest[:j]
+				c := strings.TrimSuffix(rest[j+len(suffix)+1:], ")")
+				if balanced(k) && balanced(c) {
+					return fmt.Sprintf("(%s %s %s)", op, k, c)
+				}
+			}
+		}
+	}
+	return fmt.Sprintf("(+ %s %s)", off, i)
+}
+
+func balanced(s string) bool {
+	d := 0
+	for _, c := range s {
+		if c == '(' {
+			d++
+		}
+		if c == ')' {
+			d--
+			if d < 0 {
+				return false
+			}
+		}
+	}
+	return d == 0 && !strings.ContainsAny(s, " ") || (d == 0 && strings.HasPrefix(s, "("))
 }
 
 func (e *Env) evalCall(n *ECall) SVal {
@@ -1149,7 +1250,7 @@ func (e *Env) applySpecFunc(sf *SpecFunc, args []Expr) SVal {
 		}
 		return m
 	}
-	if sf.Body != nil && !sf.Recursive {
+	if sf.Body != nil && !sf.Recursive && !sf.Opaque {
 		// inline
 		saved := e.noFnNames
 		e.noFnNames = true
@@ -1171,7 +1272,7 @@ func (e *Env) applySpecFunc(sf *SpecFunc, args []Expr) SVal {
 		app = name
 	}
 	res := SVal{t: app, typ: retTyp, sort: retSort}
-	if sf.Body != nil && sf.Recursive && !e.noUnfold {
+	if sf.Body != nil && ((sf.Recursive && !e.noUnfold) || (sf.Opaque && e.forceUnfold)) {
 		// one-step unfolding instance of the definition
 		saved, savedVars, savedU := e.noFnNames, e.vars, e.noUnfold
 		e.noFnNames, e.noUnfold = true, true
@@ -1195,7 +1296,9 @@ func (e *Env) applyHint(h Hint, cond string) {
 		vc.assumeIf(cond, f)
 	case "unfold":
 		// evaluating the application emits its unfolding instance
+		e.forceUnfold = true
 		e.eval(h.E)
+		e.forceUnfold = false
 		e.flushSide(cond)
 	case "use":
 		c, ok := h.E.(*ECall)
